@@ -192,6 +192,17 @@ def units():
         return [], {"rotate2_is_ccw_rotation_matrix": A(R.vx.x == c, R.vy.x == -s, R.vx.y == s, R.vy.y == c)}
     U.mlemma("l2_rotate", "real", l2rot)
 
+    def l2orth(ctx):
+        # an orthogonal matrix (rotation OR reflection) is its own closest orthogonal matrix: the Newton iteration of
+        # orthogonal() is at its fixed point, so it must leave after the first step (obligation of the unrolling) and the
+        # mirror that was factored out before the iteration must be put back onto the same column
+        m = ctx.new("linear2f", "m")
+        a_, b_, c_, d_ = m.vx.x, m.vy.x, m.vx.y, m.vy.y
+        o = ctx.call("l2_orthogonal", m)
+        hyp = [a_ * a_ + c_ * c_ == 1, b_ * b_ + d_ * d_ == 1, a_ * b_ + c_ * d_ == 0]
+        return hyp, {"orthogonal_input_is_a_fixed_point_of_orthogonal": A(o.vx.x == a_, o.vx.y == c_, o.vy.x == b_, o.vy.y == d_)}
+    U.mlemma("l2_orthogonal_fixed_point", "real", l2orth, unroll=1, timeout=120)
+
     # ------------------------------------------------------------ AffineSpace3
     def a3_rcp(ctx):
         a = ctx.new("affine3f", "a")
